@@ -67,7 +67,7 @@ func NewCommit(o *Object) (*Commit, error) {
 	}
 
 	buf := bytes.NewReader(o.Data)
-	scanner := fsutil.NewLineScanner(buf)
+	scanner := fsutil.NewExactLineScanner(buf)
 	for scanner.Scan() {
 		text := scanner.Text()
 		splitText := strings.SplitN(text, " ", 2)
